@@ -565,4 +565,125 @@ theorem hash_eq_spec_inner_partial (lk rk : List (Row → Val)) (nL nR : Nat) (L
   exact hk l hl r hr
 
 
+/-! ### nested-loop left outer join: the bitmap pass -/
+
+theorem flat_rechunk (k : Nat) (Xs : List Chunk) : flat (rechunk k Xs) = flat Xs := by
+  unfold rechunk; split
+  · simp [flat]
+  · rw [builder_flat]; rfl
+
+/-- element `i + |L|·j` of the right-major cross product is the pair (L[i], R[j]). -/
+theorem cross_getElem? {α β γ} (h : α → β → γ) (L : List α) (R : List β) (i j : Nat) (hi : i < L.length) :
+    (R.flatMap (fun r => L.map (fun l => h l r)))[i + L.length * j]? =
+      (R[j]?).bind (fun r => (L[i]?).map (fun l => h l r)) := by
+  induction R generalizing j with
+  | nil => simp
+  | cons r rs ih =>
+    simp only [List.flatMap_cons]
+    cases j with
+    | zero =>
+      simp only [Nat.mul_zero, Nat.add_zero, List.getElem?_cons_zero, Option.bind_some]
+      rw [List.getElem?_append_left (by simpa using hi), List.getElem?_map]
+    | succ j' =>
+      have e : i + L.length * (j' + 1) = (L.map (fun l => h l r)).length + (i + L.length * j') := by
+        simp only [List.length_map]; rw [Nat.mul_succ]; omega
+      rw [e, List.getElem?_append_right (by omega)]
+      simp only [Nat.add_sub_cancel_left, List.getElem?_cons_succ]
+      exact ih j'
+
+theorem any_range_getElem? {β} (R : List β) (p : Option β → Bool) (hp : p none = false) :
+    (List.range R.length).any (fun j => p R[j]?) = R.any (fun r => p (some r)) := by
+  rw [Bool.eq_iff_iff]
+  simp only [List.any_eq_true, List.mem_range]
+  constructor
+  · rintro ⟨j, hj, h⟩
+    refine ⟨R[j], List.getElem_mem hj, ?_⟩
+    simpa [List.getElem?_eq_getElem hj] using h
+  · rintro ⟨r, hr, h⟩
+    obtain ⟨j, hj, rfl⟩ := List.getElem_of_mem hr
+    exact ⟨j, hj, by simpa [List.getElem?_eq_getElem hj] using h⟩
+
+/-- the bitmap pass finds exactly the left rows without a partner. -/
+theorem nlMatched_spec (on : Pred) (L R : List Row) (i : Nat) (l : Row) (hl : L[i]? = some l) :
+    nlMatched ((crossRL L R).map on) L.length R.length i = !(matchesOf on l R).isEmpty := by
+  have hi : i < L.length := by
+    rcases Nat.lt_or_ge i L.length with h | h
+    · exact h
+    · rw [List.getElem?_eq_none h] at hl; cases hl
+  unfold nlMatched crossRL
+  rw [matches_isEmpty, Bool.not_not]
+  have key : ∀ j, ((R.flatMap (fun r => L.map (fun l => l ++ r))).map on).getD (i + L.length * j) none =
+      ((R[j]?).map (fun r => on (l ++ r))).getD none := by
+    intro j
+    rw [List.getD_eq_getElem?_getD, List.getElem?_map, cross_getElem? (fun l r => l ++ r) L R i j hi, hl]
+    cases R[j]? <;> rfl
+  have : (List.range R.length).any (fun j => holds (((R.flatMap (fun r => L.map (fun l => l ++ r))).map on).getD (i + L.length * j) none)) =
+      (List.range R.length).any (fun j => (fun o : Option Row => holds ((o.map (fun r => on (l ++ r))).getD none)) R[j]?) := by
+    congr 1; funext j; rw [key j]
+  rw [this, any_range_getElem? R (fun o => holds ((o.map (fun r => on (l ++ r))).getD none)) rfl]
+  rfl
+
+theorem mem_zip_range {α} (L : List α) (i : Nat) (l : α) (h : (i, l) ∈ (List.range L.length).zip L) :
+    L[i]? = some l := by
+  obtain ⟨k, hk, hkk⟩ := List.getElem_of_mem h
+  simp only [List.getElem_zip, List.getElem_range, Prod.mk.injEq] at hkk
+  obtain ⟨rfl, rfl⟩ := hkk
+  simp only [List.length_zip, List.length_range, Nat.min_self] at hk
+  exact List.getElem?_eq_getElem hk
+
+theorem filterMap_congr_mem {α β} (f g : α → Option β) (L : List α) (h : ∀ a ∈ L, f a = g a) :
+    L.filterMap f = L.filterMap g := by
+  induction L with
+  | nil => rfl
+  | cons a as ih =>
+    simp only [List.filterMap_cons]
+    rw [h a List.mem_cons_self, ih (fun x hx => h x (List.mem_cons_of_mem _ hx))]
+
+theorem nlUnmatched_spec (on : Pred) (nR : Nat) (L R : List Row) :
+    nlUnmatched ((crossRL L R).map on) nR L R.length = leftUnmatched on nR L R := by
+  unfold nlUnmatched leftUnmatched
+  have h1 : ((List.range L.length).zip L).filterMap (fun (p : Nat × Row) =>
+        if nlMatched ((crossRL L R).map on) L.length R.length p.1 then none else some (p.2 ++ nulls nR)) =
+      ((List.range L.length).zip L).filterMap (fun p =>
+        (fun l => if (matchesOf on l R).isEmpty then some (l ++ nulls nR) else none) p.2) := by
+    apply filterMap_congr_mem
+    rintro ⟨i, l⟩ hm
+    simp only
+    rw [nlMatched_spec on L R i l (mem_zip_range L i l hm)]
+    cases (matchesOf on l R).isEmpty <;> rfl
+  rw [h1]
+  have h2 : ∀ (g : Row → Option Row), ((List.range L.length).zip L).filterMap (fun p => g p.2) = L.filterMap g := by
+    intro g
+    have : (fun p : Nat × Row => g p.2) = g ∘ Prod.snd := rfl
+    rw [this, ← List.filterMap_map]
+    congr 1
+    rw [List.map_snd_zip]; simp
+  refine (h2 (fun l => if (matchesOf on l R).isEmpty then some (l ++ nulls nR) else none)).trans ?_
+  clear h1 h2
+  induction L with
+  | nil => rfl
+  | cons a as ih =>
+    simp only [List.filterMap_cons, List.filter_cons]
+    cases (matchesOf on a R).isEmpty
+    · simp only [Bool.false_eq_true, if_false]; exact ih
+    · simp only [if_true, List.map_cons]; rw [ih]
+
+
+theorem leftJoin_perm_decomp (on : Pred) (nR : Nat) (L R : List Row) :
+    (leftJoin on nR L R).Perm (innerJoin on L R ++ leftUnmatched on nR L R) := by
+  unfold leftJoin innerJoin leftUnmatched
+  induction L with
+  | nil => simp
+  | cons l ls ih =>
+    simp only [List.flatMap_cons, List.filter_cons]
+    cases h : (matchesOf on l R).isEmpty
+    · simp only [Bool.false_eq_true, if_false]
+      rw [List.append_assoc]
+      exact Perm.append_left _ ih
+    · have hm : matchesOf on l R = [] := List.isEmpty_iff.mp h
+      simp only [if_true, hm, List.map_nil, List.nil_append, List.map_cons]
+      refine (Perm.cons _ ih).trans ?_
+      exact perm_middle.symm
+
+
 end RlModel
